@@ -234,3 +234,10 @@ package openid
 //@ wiring OpenIDConnectRefreshHandler : IDTokenHandleHelper, Config
 //@ wiring OpenIDConnectDeviceHandler : OpenIDConnectRequestStorage, DeviceCodeStrategy, Config, IDTokenHandleHelper
 //@ wiring IDTokenHandleHelper : IDTokenStrategy
+
+//@ func (*OpenIDConnectExplicitHandler).CanSkipClientAuth
+//@   ensures [C10.oidc-handlers-never-skip-auth] !result
+//@ func (*OpenIDConnectRefreshHandler).CanSkipClientAuth
+//@   ensures [C10.oidc-handlers-never-skip-auth] !result
+//@ func (*OpenIDConnectDeviceHandler).CanSkipClientAuth
+//@   ensures [C10.oidc-handlers-never-skip-auth] !result
